@@ -277,6 +277,11 @@ fn violate(r: &mut Prng, node: &mut Value) -> Option<&'static str> {
             m.insert(s(k), fnum(*r.pick(&[f64::NAN, f64::INFINITY, f64::NEG_INFINITY])));
             Some("non-finite number")
         }
+        ("int", 2) => {
+            // the scale of an int is a real: non-finite values of it are refused like those of a real parameter
+            m.insert(s("scale"), fnum(*r.pick(&[f64::NAN, f64::INFINITY, f64::NEG_INFINITY])));
+            Some("non-finite number")
+        }
         ("real", 3) => {
             if let Some(mx) = m.get("max").and_then(|v| v.as_f64()) {
                 m.insert(s("init"), fnum(mx.abs() * 2.0 + 1.0));
